@@ -287,6 +287,26 @@ def algebra_stream(env: Env, out: Outcome, n: int) -> None:
             out.violations.append(Violation("C07/stop_algebra", f"stop_any/stop_all disagree with or/and of {sv}", case))
         if m >= 2 and ((ss[0] | ss[1])(k, el, upcoming_sleep=up) != (sv[0] or sv[1]) or (ss[0] & ss[1])(k, el, upcoming_sleep=up) != (sv[0] and sv[1])):
             out.violations.append(Violation("C07/stop_operators", "| / & on stop conditions are not or/and", case))
+        # nested operator expressions: `&` / `|` trees of depth 2..3 must evaluate like the Boolean tree of the leaves
+        if m >= 3:
+            def tree(objs: list, vals: list, depth: int) -> tuple[Any, bool, str]:
+                if depth == 0 or len(objs) == 1:
+                    i = rng.randrange(len(objs))
+                    return objs[i], bool(vals[i]), f"x{i}"
+                la, va, sa = tree(objs, vals, depth - 1)
+                lb, vb, sb = tree(objs, vals, rng.randrange(depth))
+                if rng.random() < 0.5:
+                    return la | lb, va or vb, f"({sa}|{sb})"
+                return la & lb, va and vb, f"({sa}&{sb})"
+            for _t in range(3):
+                obj, want, shape = tree(ss, sv, rng.randint(2, 3))
+                if bool(obj(k, el, upcoming_sleep=up)) != want:
+                    out.violations.append(Violation("C07/stop_operators_nested", f"{shape} over stop values {sv} evaluated to {obj(k, el, upcoming_sleep=up)}, Boolean value {want}", {**case, "shape": shape}))
+            cv0 = [c_(e) for c_ in cs]
+            for _t in range(3):
+                obj, want, shape = tree(cs, cv0, rng.randint(2, 3))
+                if bool(obj(e)) != want:
+                    out.violations.append(Violation("C07/retry_operators_nested", f"{shape} over retry values {cv0} evaluated to {obj(e)}, Boolean value {want}", {**case, "shape": shape}))
         cv = [c_(e) for c_ in cs]
         if RP.retry_any(*cs)(e) != any(cv) or RP.retry_all(*cs)(e) != all(cv):
             out.violations.append(Violation("C07/retry_algebra", f"retry_any/retry_all disagree with or/and of {cv}", case))
